@@ -80,7 +80,7 @@ ALPHABET = {
     "points 1D": "every role of the axis (27 for 4 cells, 23 for 3 cells); 8-cell geometry: " + ", ".join(G8_ROLES),
     "points 2D": P2, "points 3D": P3,
     "grid lattice": "1D: min in {-2.5,-.3,0,1.7,1000} x width in {.5,1,1.1,3} x resolution in {.1,.25,.3,.7,1.5,5}; "
-                    "2D: 3 x-axes x 3 y-axes; 3D: 4 geometries (thorough: 8); each x {const,lin,smooth,hash} x no_boundary_error",
+                    "2D: 3 x-axes x 3 y-axes; 3D: 4 geometries (thorough: 8); + large-magnitude axes (1e18..1e20, 2^31.., -2^31..) in 1D, 2D and 3D; each x {const,lin,smooth,hash} x no_boundary_error",
 }
 BOUND = {
     "quick": "hist: all sequences of length <= 3 (1D: every role point of the 4- and 3-cell areas, 13 points of the 8-cell area; 2D: 26 points; "
@@ -98,7 +98,7 @@ RULE = ("hist/perm: one case per (configuration, sequence prefix); the case runs
         "grid: one case per (geometry, function, no_boundary_error); key = (geometry, function, nbe, bounds, point) for every reference comparison")
 ASSUMPTIONS = [
     "sampling nodes are the coordinates the wrapped function is called on during line scans of a fresh cache (call log; not an oracle itself)",
-    "EPSILON = 1e-7 edge tolerance documented in the module: points within 1.5e-7 outside an edge may either evaluate or be rejected, consistently",
+    "EPSILON = 1e-7 edge tolerance documented in the module: points within 1.5e-7 (or two spacings of doubles, where that is larger) outside an edge may either evaluate or be rejected, consistently",
     "h^2 bound is decided for the stated smooth family with closed-form curvature (g(x)+h(y)+k(z)+multilinear), constant 1.0, h = largest observed node gap",
     "history independence threshold 1e-13*scale (bit-identical values are counted in the outcome); reference tolerances 1e-9*scale, "
     "scale = max |f| over the sampled nodes; justified for <= 50 cells per axis since a cubic in coordinates normalised to [0,1] "
@@ -629,15 +629,22 @@ def _grid_geoms(tier):
         for w in (0.5, 1.0, 1.1, 3.0):
             for res in (0.1, 0.25, 0.3, 0.7, 1.5, 5.0):
                 out.append([(lo, lo + w, res)])
+    # coordinates of large magnitude (a density or frequency axis; an area far from the origin): the module's EPSILON = 1e-7 is below
+    # the spacing of doubles there
+    out.append([(1.0e18, 1.0e20, 1.0e19)])
+    out.append([(2.0 ** 31, 2.0 ** 31 + 64.0, 1.0)])
+    out.append([(-2.0 ** 31 - 64.0, -2.0 ** 31, 4.0)])
     xs = [(0.0, 1.0, 0.25), (-0.3, 0.8, 0.3), (1000.0, 1001.0, 0.25)]
     ys = [(-0.3, 0.8, 0.3), (2.0, 3.5, 0.5), (0.0, 0.5, 1.5)]
     for x in xs:
         for y in ys:
             out.append([x, y])
+    out.append([(0.0, 1.0, 0.25), (1.0e18, 1.0e20, 3.0e19)])
     g3 = [[(0.0, 1.0, 0.3), (-0.3, 0.8, 0.3), (2.0, 3.5, 0.5)],
           [(0.0, 1.0, 0.3), (-0.3, 0.8, 0.3), (0.0, 0.5, 1.5)],
           [(1000.0, 1001.0, 0.3), (-0.3, 0.8, 0.3), (2.0, 3.5, 0.5)],
-          [(-2.5, -2.0, 0.25), (1.7, 2.8, 0.7), (-0.3, 0.8, 0.3)]]
+          [(-2.5, -2.0, 0.25), (1.7, 2.8, 0.7), (-0.3, 0.8, 0.3)],
+          [(2.0 ** 31, 2.0 ** 31 + 8.0, 4.0), (1.0e18, 1.0e20, 5.0e19), (2.0, 3.5, 0.5)]]      # (the smooth function has exp(z/2): z stays small)
     if tier == "thorough":
         # (6x6x7 intervals; z centred on the origin: with z in (2, 3.5) the raw-coordinate polynomial of the implementation
         #  already loses 6e-7 at the nodes of the hash function against 8e-8 for evaluation in normalised coordinates -
